@@ -66,6 +66,8 @@ CONTEXTS = {
     "targ": ("QC {{echo|QA %s QB}} QD", True),
     "tnamed": ("QC {{echo|1=QA %s QB}} QD", True),
     "tbody": ("QC {{tb|ARG}} QD", "body"),
+    "twice": ("QA %s QM @2 QB", False),          # @2 = a second region of the same tag
+    "twice+db": ("* QA %s QM {{echo|@2}} QB", True),
 }
 THOROUGH_CONTEXTS = {
     "heading": ("== QA %s QB ==\ntext", False),
@@ -77,7 +79,7 @@ THOROUGH_CONTEXTS = {
     "targ2": ("QC {{echo|{{echo|QA %s QB}}}} QD", True),
     "caption": ("{|\n|+ QA %s QB\n|-\n| c\n|}", False),
 }
-BASE_DB = {"echo": "[{{{1}}}]", "c": "CCC", "Template:c": "CCC"}
+BASE_DB = {"echo": "({{{1}}})", "c": "CCC", "Template:c": "CCC"}
 
 
 def closes(tag, body):
@@ -105,6 +107,7 @@ def tag_text(tag, attrs, body, variant):
 
 def make_case(i, tag, attrs, body, variant, ctx, contexts):
     tmpl, dbmode = contexts[ctx]
+    tmpl = tmpl.replace("@2", "<%s>''QZ''</%s>" % (tag, tag))
     T = tag_text(tag, attrs, body, variant)
     Tp = tag_text(tag, attrs, PH, variant)
     if dbmode == "body":
@@ -368,6 +371,16 @@ T_UNIQ_RX = re.compile("\x7fUNIQ-[a-z0-9]+-[0-9]+-[0-9a-f]+-QINU\x7f")      # _u
 SPECIALS = set("{}[]|=<>")
 
 
+class _Collect:
+    def __init__(self):
+        self.hits = {}
+
+    def hit(self, fingerprint, what, replay):
+        old = self.hits.get(fingerprint)
+        if old is None or len(replay["case"]["text"]) < len(old[1]["case"]["text"]):
+            self.hits[fingerprint] = (what, replay)
+
+
 def roundtrip_monitor(run, c, r):
     """The property's own oracle on replace_tags/replace_uniq of the real code (no model involved)."""
     t = c["text"]
@@ -391,6 +404,7 @@ def run_tie(run, cases, exe, src):
     ires = impl_run(cases, src)
     mres = model_run(exe, cases)
     dis = []
+    coll = _Collect()
     stats = {"tags_protected": 0, "comments": 0, "no_match": 0, "with_0x7f": 0, "exotic_fold": 0, "unclosed_or_selfclosing_text": 0}
     for c, a, m in zip(cases, ires, mres):
         t = c["text"]
@@ -405,7 +419,7 @@ def run_tie(run, cases, exe, src):
         stats["with_0x7f"] += ("\x7f" in t)
         stats["exotic_fold"] += any(ch in t for ch in EXOTIC.values())
         run.count(key, nontrivial=(ntags > 0 or a["protected"] != t))
-        roundtrip_monitor(run, c, a)
+        roundtrip_monitor(coll, c, a)
         if m is None:
             dis.append("model driver error on %r" % t[:100])
             continue
@@ -418,6 +432,8 @@ def run_tie(run, cases, exe, src):
                 dis.append("table differs on %s: impl %r model %r" % (json.dumps(c), a["table"][:3], m["table"][:3]))
         if ntags and len(run.samples) < 3 and len(t) < 80:
             run.sample({"tie_text": t, "protected": a["protected"], "restored": a["restored"], "table": a["table"][:2]})
+    for fp, (what, rp) in sorted(coll.hits.items()):
+        run.hit(fp, what, rp)
     return dis, stats
 
 
@@ -443,7 +459,7 @@ KNOWN_CLASSES = {
 def check(run):
     run.rule = ("search: wikitext = context[<tag attrs>body</tag>], tag in {nowiki,pre,math,source,syntaxhighlight,timeline}; body = every single "
                 "fragment of a 140-fragment markup alphabet (systematic part, sampled 28% in quick, all in thorough) and random concatenations of "
-                "1..5 (quick) / 1..8 (thorough) fragments not containing the tag's own closing tag nor 0x7f; 12 contexts (top level, alone, list item, "
+                "1..5 (quick) / 1..8 (thorough) fragments not containing the tag's own closing tag nor 0x7f; 14 contexts (top level, alone, list item, two regions of the same tag, "
                 "table cell, bold, each with and without a template universe, positional/named template argument, template body), thorough adds 8 "
                 "more; oracle: tree(context[body]) = tree(context[placeholder]) with the placeholder leaf replaced by the body. "
                 "tie: texts of 1..5 pieces (tag occurrence with attribute/termination/case variants, comment with newline/space borders, markup text, "
@@ -555,6 +571,7 @@ def check(run):
                 run.hit(fp, "body of <%s> not opaque in context %s: %r (%s)" % (m["tag"], m["ctx"], m["body"], r["why"][:200]),
                         {"kind": "tree", "case": m, "why": r["why"]})
     run.coverage["search_outcomes"] = kinds
+    run.coverage["search_exceptions"] = [{"wikitext": c["raw"], "why": r["why"]} for c, r in failing if r["kind"] == "exception"][:5]
     run.coverage["search_mismatch_classes"] = {k: len(v) for k, v in by_class.items()}
     run.coverage["exhaustive"] = False
     run.coverage["exhaustive_part"] = ("tie: 8 tags x %d attribute forms x 6 termination forms x 2 cases; search (thorough): every alphabet fragment "
@@ -581,14 +598,9 @@ def replay(obj):
         r = impl_run([c], src)[0]
         print(json.dumps({"text": c["text"], "result": r}, indent=1, ensure_ascii=True))
 
-        class _R:
-            hits = []
-
-            def hit(self, fingerprint, what, replay):
-                self.hits.append(what)
-        rr = _R()
+        rr = _Collect()
         roundtrip_monitor(rr, c, r)
-        print("\n".join(rr.hits))
+        print("\n".join(w for w, _ in rr.hits.values()))
         bad = bool(rr.hits) or "error" in r
     else:
         print(json.dumps(rp, indent=1))
